@@ -108,6 +108,12 @@ class Gen:
                 nv = r.randint(1, 8)
                 keys = r.sample(RENAMES, nv)
                 self.types.append({"name": name, "kind": kind, "variants": [{"ident": "V%d" % j, "rename": keys[j] if r.random() < 0.5 else None} for j in range(nv)]})
+        # boundary arities in every program: derive code often special-cases a single field / variant
+        base = len(self.types)
+        self.types.append({"name": "T%d" % base, "kind": "tuple", "fields": [{"type": self.field_type()}]})
+        self.types.append({"name": "T%d" % (base + 1), "kind": "struct", "fields": [{"ident": "f0", "type": self.field_type(), "rename": r.choice([None, r.choice(RENAMES)])}]})
+        self.types.append({"name": "T%d" % (base + 2), "kind": "enum", "variants": [{"ident": "V0", "rename": r.choice([None, r.choice(RENAMES)])}]})
+        self.types.append({"name": "T%d" % (base + 3), "kind": "map", "fields": [{"ident": "f0", "type": self.field_type(), "rename": r.choice(RENAMES)}]})
 
     def decl(self, t):
         if t["kind"] in ("struct", "map"):
